@@ -111,7 +111,7 @@ def meta(draw, ndim, rich=True):
 
 @st.composite
 def hist_spec(draw, dims=(1, 2, 3), dtypes=ALL_DTYPES, max_bins=6, gapped=None, forms=("edges", "pairs", "static", "numpy", "fixed", "exp"),
-              adaptive=None, with_missed=True, custom_err=True, nan_missed=False, keep_missed=None, rich_meta=True, allow_zero=True):
+              adaptive=None, with_missed=True, custom_err=True, nan_missed=False, keep_missed=None, rich_meta=True, allow_zero=True, near_err=False):
     d = draw(st.sampled_from(list(dims)))
     adp = draw(st.booleans()) if adaptive is None else adaptive
     mb = max_bins if d <= 2 else max(2, max_bins - 2)
@@ -121,6 +121,14 @@ def hist_spec(draw, dims=(1, 2, 3), dtypes=ALL_DTYPES, max_bins=6, gapped=None, 
     elem = content_values(dtype, allow_zero)
     freq = nested(draw, shape, elem)
     err2 = nested(draw, shape, content_values(dtype)) if custom_err and draw(st.booleans()) else None
+    if custom_err and near_err and dtype in ("float32", "float64") and draw(st.integers(0, 3)) == 0:
+        # squared errors that are "allclose" to the contents without being equal
+        rel = draw(st.sampled_from([2.0 ** -18, 2.0 ** -21, -(2.0 ** -19)]))
+
+        def perturb(x):
+            return [perturb(y) for y in x] if isinstance(x, list) else float(x) * (1 + rel) + draw(st.sampled_from([0.0, 0.0, 2.0 ** -30]))
+
+        err2 = perturb(freq)
     km = draw(st.sampled_from([True, True, False])) if keep_missed is None else keep_missed
     isfloat = dtype in FLOAT_DTYPES
     mv = content_values(dtype)
